@@ -88,16 +88,18 @@ theorem cmwValue_some (buf : Bytes) (p l t : Nat) (h : cmwValue buf p l = some (
           subst h
           refine ⟨by omega, by omega, heq', Or.inl ⟨by omega, rfl⟩⟩
       · split at h
-        · cases h
-        · rename_i h1
-          have h1' : rd buf (p + nameCmw.length + 1) = chOne := by simpa using h1
-          split at h
+        · split at h
           · cases h
-          · rename_i hr
-            simp only [Option.some.injEq] at h
-            simp [cmwSecondHi] at hr
-            subst h
-            refine ⟨by omega, by omega, heq', Or.inr ⟨by omega, h1', rfl⟩⟩
+          · rename_i h1
+            have h1' : rd buf (p + nameCmw.length + 1) = chOne := by simpa using h1
+            split at h
+            · cases h
+            · rename_i hr
+              simp only [Option.some.injEq] at h
+              simp [cmwSecondHi] at hr
+              subst h
+              refine ⟨by omega, by omega, heq', Or.inr ⟨by omega, h1', rfl⟩⟩
+        · cases h
   · cases h
 
 theorem smwValue_some (buf : Bytes) (p l t : Nat) (h : smwValue buf p l = some t) :
@@ -105,27 +107,31 @@ theorem smwValue_some (buf : Bytes) (p l t : Nat) (h : smwValue buf p l = some t
   unfold smwValue at h
   split at h
   · cases h
-  · rename_i heq
-    have heq' : rd buf (p + nameSmw.length) = chEq := by simpa using heq
-    split at h
-    · split at h
-      · cases h
-      · rename_i hr
-        simp only [Option.some.injEq] at h
-        simp [smwDigit] at hr
-        subst h
-        refine ⟨by omega, by omega, heq', Or.inl ⟨by omega, rfl⟩⟩
-    · split at h
-      · cases h
-      · rename_i h1
-        have h1' : rd buf (p + nameSmw.length + 1) = chOne := by simpa using h1
-        split at h
+  · split at h
+    · cases h
+    · rename_i heq
+      have heq' : rd buf (p + nameSmw.length) = chEq := by simpa using heq
+      split at h
+      · split at h
         · cases h
         · rename_i hr
           simp only [Option.some.injEq] at h
-          simp [smwSecondHi] at hr
+          simp [smwDigit] at hr
           subst h
-          refine ⟨by omega, by omega, heq', Or.inr ⟨by omega, h1', rfl⟩⟩
+          refine ⟨by omega, by omega, heq', Or.inl ⟨by omega, rfl⟩⟩
+      · split at h
+        · split at h
+          · cases h
+          · rename_i h1
+            have h1' : rd buf (p + nameSmw.length + 1) = chOne := by simpa using h1
+            split at h
+            · cases h
+            · rename_i hr
+              simp only [Option.some.injEq] at h
+              simp [smwSecondHi] at hr
+              subst h
+              refine ⟨by omega, by omega, heq', Or.inr ⟨by omega, h1', rfl⟩⟩
+        · cases h
 
 /-- the parameter kind an action belongs to -/
 def Action.pname : Action → PName
